@@ -13,12 +13,13 @@ import os, sys, re, json, subprocess, threading, queue, itertools, time
 import common, build
 
 PID = "C17"
-NOPS = 28
+NOPS = 30
 OPNAMES = {0: "AtomicWeight(26)", 1: "CS_Total(26,10)", 2: "CS_Total(82,10)", 3: "LineEnergy(82,LB)", 4: "CS_FluorLine_Kissel(82,L3M5,20)", 5: "NISTByIndex(-1)", 6: "NISTByIndex(999)",
            7: "CompoundParser(Ca5(PO4)3F)", 8: "CompoundParser(H0.5O2.25(CoO1.5)2)", 9: "CompoundParser(Uu2O)", 10: "CS_Total_CP(H2O)", 11: "CS_Total_CP(Water, Liquid)",
            12: "NISTByName(Kapton)", 13: "RadioByName(55Fe)", 14: "GetCrystal(Si)+F_H+Bragg", 15: "error copy/propagate/clear", 16: "AtomicNumberToSymbol(26)", 17: "Refractive_Index(H2O)",
            18: "SymbolToAtomicNumber(Fe)", 19: "Crystal_GetCrystalsList", 20: "ComptonProfile_Partial", 21: "AugerRate", 22: "DCSP_Rayl_CP(SiO2)", 23: "CS_FluorLine(26,KL3)",
-           24: "CS_Total(26,-1)", 25: "add_compound_data", 26: "Refractive_Index_Re(Uu)", 27: "RadioByIndex(99)"}
+           24: "CS_Total(26,-1)", 25: "add_compound_data", 26: "Refractive_Index_Re(Uu)", 27: "RadioByIndex(99)",
+           28: "private array: AddCrystal x3 + lookups + list", 29: "private array: Crystal_ReadFile + lookups + list"}
 CORE = [1, 5, 6, 7, 8, 10, 11, 14, 15, 17, 3, 12]
 # (strerror is MT-safe in glibc >= 2.32, which uses a thread-local buffer; it is recorded in the evidence but not treated as a race)
 MT_UNSAFE_LIBC = {"strtok", "rand", "srand", "setlocale", "localeconv", "asctime", "ctime", "gmtime", "localtime", "getenv", "setenv", "putenv", "readdir",
@@ -203,9 +204,36 @@ def explore(h, pts, progs, contested, bound, serial, on_bad, budget):
     return nsched, ntrans, outcomes, newc, True
 
 
+CRYSTAL_FILE = """#S 1 Bb
+#UCELL 5.5 5.5 5.5 90 90 90
+#N 5
+#L AtomicNumber Fraction X Y Z
+14 1.0 0.0 0.0 0.0
+14 1.0 0.25 0.25 0.25
+#S 2 Aa
+#UCELL 4.1 4.2 4.3 90 100 90
+#N 5
+#L AtomicNumber Fraction X Y Z
+8 1.0 0.0 0.5 0.5
+#EOF
+"""
+
+
+def crystal_file(B):
+    """two-crystal file (not in sorted order) for the private-collection op; every harness process finds it through XRL_CRYSTALS_FILE"""
+    p = os.path.join(B.dir, "c17_crystals.dat")
+    if not os.path.exists(p):
+        with open(p + ".tmp%d" % os.getpid(), "w") as f:
+            f.write(CRYSTAL_FILE)
+        os.replace(p + ".tmp%d" % os.getpid(), p)
+    os.environ["XRL_CRYSTALS_FILE"] = p
+    return p
+
+
 def run(ctx, B):
     quick = ctx.tier == "quick"
     hdir = os.path.join(common.VERIF, "harness")
+    crystal_file(B)
     # fail closed on synchronisation primitives / MT-unsafe libc use inside the library objects
     lib = B.lib("acc", "A")
     nm = subprocess.run(["nm", "-u", lib], stdout=subprocess.PIPE, text=True).stdout
@@ -374,7 +402,7 @@ def run(ctx, B):
     ctx.notes.update(harnesses=total_harness, schedules=total_sched, tsan_reports=reports, tsan_calls=tsan_calls, tsan_mismatches=mism, distinct_outcomes_total=all_outcomes)
     ctx.cov.update(states=max(total_sched, 1), transitions=max(total_trans, 1), traces_validated_against_impl=total_sched)
     ctx.add(evaluations=total_sched + tsan_calls, nontrivial=total_sched)
-    ctx.cov["rule"] = ("28-op alphabet chosen to collide (same call on both threads, formatted error messages, parser with fractional subscripts, _CP parse+free, NIST/nuclide/crystal "
+    ctx.cov["rule"] = ("30-op alphabet chosen to collide (same call on both threads, formatted error messages, parser with fractional subscripts, _CP parse+free, NIST/nuclide/crystal "
                        "lookups, nested LineEnergy, error copy/propagate); harnesses: all unordered pairs (2 threads x 1 op), 2 x 2 over a core, 3 x 1 over a core, C and comma "
                        "locale; per harness a serial conflict pass over compiler-instrumented accesses (contested granule = data race) and exhaustive enumeration of all "
                        "schedules with <= 2 (thorough 3) preemptions over scheduling points at contested accesses, libc seams, op boundaries and (core pairs) every library "
@@ -397,6 +425,7 @@ def replay(path):
     print("replaying %s" % d["key"])
     B = build.Build()
     hdir = os.path.join(common.VERIF, "harness")
+    crystal_file(B)
     if r.get("tsan"):
         texe = B.exe("tsanrun", [os.path.join(hdir, "tsanrun.c")], "tsan", "A")
         env = dict(os.environ, TSAN_OPTIONS="halt_on_error=0:exitcode=0")
